@@ -63,12 +63,15 @@ type E struct {
 	Values []EV   `json:"values"`
 }
 type M struct {
-	Implements []string `json:"implements"`
-	Name       string   `json:"name"`
-	Fields     []F      `json:"fields"`
-	Oneofs     []string `json:"oneofs"` // declaration order
-	Nested     []M      `json:"nested"`
-	Enums      []E      `json:"enums"`
+	// EntriesFirst: the synthetic map-entry messages precede the explicitly nested ones in
+	// nested_type (a map field declared before a nested message), instead of following them
+	EntriesFirst bool     `json:"entries_first"`
+	Implements   []string `json:"implements"`
+	Name         string   `json:"name"`
+	Fields       []F      `json:"fields"`
+	Oneofs       []string `json:"oneofs"` // declaration order
+	Nested       []M      `json:"nested"`
+	Enums        []E      `json:"enums"`
 }
 
 // X is a custom option (extension of a google.protobuf.*Options message) declared by a file.
@@ -238,12 +241,21 @@ func (m *M) toProto(scope string) *descriptorpb.DescriptorProto {
 		oneofIdx[o] = int32(i)
 		p.OneofDecl = append(p.OneofDecl, &descriptorpb.OneofDescriptorProto{Name: proto.String(o)})
 	}
-	for i := range m.Nested {
-		p.NestedType = append(p.NestedType, m.Nested[i].toProto(full))
+	if !m.EntriesFirst {
+		for i := range m.Nested {
+			p.NestedType = append(p.NestedType, m.Nested[i].toProto(full))
+		}
 	}
 	for i := range m.Enums {
 		p.EnumType = append(p.EnumType, m.Enums[i].toProto())
 	}
+	defer func() {
+		if m.EntriesFirst {
+			for i := range m.Nested {
+				p.NestedType = append(p.NestedType, m.Nested[i].toProto(full))
+			}
+		}
+	}()
 	for _, f := range groupOneofs(m.Fields) {
 		fp := &descriptorpb.FieldDescriptorProto{
 			Name:     proto.String(f.Name),
@@ -655,6 +667,9 @@ func Names() []*File {
 		Msgs: []M{m, lm, shapes, nest, ns,
 			// names whose leading characters all occur in the package name "verif.nm" (prefix
 			// stripping must not be character-set stripping), one of them lower case
+			// a map field declared BEFORE a nested message: its entry type comes first in nested_type
+			{Name: "MapFirst", EntriesFirst: true, Fields: []F{mp("m", 1, "string", "int32"), one("a", 2, "message", ".verif.nm.MapFirst.After"), mp("am", 3, "int32", "message", ".verif.nm.MapFirst.After")},
+				Nested: []M{{Name: "After", Fields: []F{one("v", 1, "int32"), rep("w", 2, "string")}}}},
 			{Name: "Params", Fields: []F{one("a", 1, "int32")}},
 			{Name: "nParams", Fields: []F{one("b", 1, "string"), one("p", 2, "message", ".verif.nm.Params")}},
 			{Name: "mini", Fields: []F{one("v", 1, "int32"), rep("r", 2, "message", ".verif.nm.nParams")}},
@@ -689,10 +704,13 @@ func SintOneof() []*File {
 // Cross: two Go packages importing each other's types one way, well-known types, recursion
 // through another package, a proto2 file and an unrequested file in the same request.
 func Cross() []*File {
-	xb := &File{Name: "verif/xb/xb.proto", Pkg: "verif.xb", GoPkg: "xb", Group: "x", Tags: []string{"cross"},
+	// a file that declares only enums (no message): it still has to be generated
+	xbe := &File{Name: "verif/xb/xbe.proto", Pkg: "verif.xb", GoPkg: "xb", Group: "x", Tags: []string{"cross"},
+		Enums: []E{{Name: "Mood", Values: []EV{{"MOOD_UNSPECIFIED", 0}, {"MOOD_OK", 1}, {"MOOD_BAD", -1}}}}}
+	xb := &File{Name: "verif/xb/xb.proto", Pkg: "verif.xb", GoPkg: "xb", Group: "x", Tags: []string{"cross"}, Deps: []string{"verif/xb/xbe.proto"},
 		Enums: []E{{Name: "Side", Values: []EV{{"SIDE_UNKNOWN", 0}, {"SIDE_LEFT", 1}, {"SIDE_RIGHT", 2}}}},
 		Msgs: []M{
-			{Name: "Leaf", Fields: []F{one("id", 1, "uint64"), one("name", 2, "string"), one("side", 3, "enum", ".verif.xb.Side"), mp("attrs", 4, "string", "string")}},
+			{Name: "Leaf", Fields: []F{one("id", 1, "uint64"), one("name", 2, "string"), one("side", 3, "enum", ".verif.xb.Side"), mp("attrs", 4, "string", "string"), one("mood", 5, "enum", ".verif.xb.Mood")}},
 			{Name: "Tree", Fields: []F{one("leaf", 1, "message", ".verif.xb.Leaf"), rep("kids", 2, "message", ".verif.xb.Tree"), mp("named", 3, "string", "message", ".verif.xb.Tree")}},
 			// linear recursion: reaches any nesting depth without fan-out (rapidproto's nesting limit)
 			{Name: "Chain", Fields: []F{one("next", 1, "message", ".verif.xb.Chain"), rep("nums", 2, "int32"), rep("tags", 3, "string"), rep("sides", 4, "enum", ".verif.xb.Side"), one("w", 5, "fixed64")}},
@@ -750,7 +768,7 @@ func Cross() []*File {
 		Deps: []string{"cosmos_proto/cosmos.proto", "google/protobuf/any.proto", "google/protobuf/descriptor.proto"},
 		Exts: ExtSet("opt"),
 		Msgs: []M{{Name: "WithOptions", Implements: []string{"verif.opt.Account", "verif.opt.Other"}, Fields: []F{addr, acct, amt}}}}
-	return []*File{xb, xa2, xa, opt}
+	return []*File{xbe, xb, xa2, xa, opt}
 }
 
 // ExtSet declares custom options on seven different options messages.
@@ -766,7 +784,7 @@ func ExtSet(prefix string) []X {
 // Go package), C (proto3, same Go package as A), D (proto2), E (proto3, unrelated).
 func PluginUniverse() map[string]*File {
 	cross := Cross()
-	a, b := cross[0], cross[2] // xb, xa
+	a, b := cross[1], cross[3] // xb, xa
 	c := &File{Name: "verif/xb/xb2.proto", Pkg: "verif.xb", GoPkg: "xb", Group: "x", Deps: []string{"verif/xb/xb.proto"},
 		Msgs: []M{{Name: "Branch", Fields: []F{one("leaf", 1, "message", ".verif.xb.Leaf"), rep("tags", 2, "string"), rep("nums", 3, "sint32"), rep("ws", 4, "double")}}}}
 	d := &File{Name: "verif/p2/p2.proto", Pkg: "verif.p2", GoPkg: "p2", Group: "p2", Syntax: "proto2",
@@ -780,7 +798,7 @@ func PluginUniverse() map[string]*File {
 			{Name: "Tree", Fields: []F{one("range", 1, "message", ".verif.ex.Leaf")}},
 		},
 		Exts: ExtSet("ex")}
-	return map[string]*File{"A": a, "B": b, "C": c, "D": d, "E": e, "xa2": cross[1]}
+	return map[string]*File{"A": a, "B": b, "C": c, "D": d, "E": e, "xa2": cross[2], "xbe": cross[0]}
 }
 
 // AllStatic returns the static corpus in dependency order.
